@@ -208,7 +208,7 @@ def stereo_marks(mol):
 
 def shared_state(objs):
     """mutable state that two distinct molecule objects (or a molecule and its transaction backup) share: description or None.
-    Atoms, bonds, their Vector and ring-size sets, the atom/bond dicts, the metadata dict and the cache dict must all be
+    Atoms, bonds, their Vectors, the atom/bond dicts, the metadata dict and the cache dict must all be
     private to their molecule (memoised *values* are frozen and may be shared)."""
     owners = {}
     def claim(x, who, what):
@@ -235,8 +235,8 @@ def shared_state(objs):
             if d:
                 return d
         for n, a in m._atoms.items():
-            for what, x in (('atom object', a), ('Vector of an atom', getattr(a, '_xy', None)),
-                            ('ring_sizes set of an atom', getattr(a, '_ring_sizes', None) or None)):
+            # (`_ring_sizes` is handed out from the memoised `atoms_rings_sizes` value, which copies may share: a frozen value)
+            for what, x in (('atom object', a), ('Vector of an atom', getattr(a, '_xy', None))):
                 d = claim(x, who, what)
                 if d:
                     return d
